@@ -405,7 +405,7 @@ def _packet_id_from_iterator(ctx, R, gen, m, hm, ci, init) -> bool:
     ctx.require(lim is not None, f"{hm.relpath}: header.packet_id is not packed into the header")
     limit, size = lim
     if seq is None:
-        raise AnalysisError(f"{m.relpath}: packet ids come from next({src}) but {src} is not `itertools.cycle(<constant sequence>)` assigned once in __init__")
+        return False  # some other iterator: the general exploration below evaluates it
     bad = sorted(x for x in set(seq) if not isinstance(x, int) or isinstance(x, bool) or x < 0 or x >= limit)
     ctx.check(not bad, R, f"{gen}:HeaderFactory._packet_id:range", m, cfm, f"every returned id fits the {size}-byte packet_id slot [0,{limit - 1}]", f"the cycled sequence contains {bad[:3]}" if bad else f"{len(seq)} values")
     ctx.check(list(seq) == list(range(limit)), R, f"{gen}:HeaderFactory._packet_id:sequence", m, cfm, f"ids are handed out as 0, 1, ..., {limit - 1} and then start again", f"cycle of {len(seq)} values starting {list(seq)[:4]}")
@@ -417,7 +417,7 @@ def r6(ctx):
     checker's own interpreter (sa/minieval.py; the repository code is never executed) from the initial state until a
     counter state repeats; every id handed out must fit the packet_id slot of the header struct and the ids must run
     0, 1, ..., limit-1 and start again.  `next(itertools.cycle(<constant sequence>))` is the second accepted idiom."""
-    from ..minieval import FakeObj, Mini, Unsupported
+    from ..minieval import FakeObj, Mini, Unsupported, freeze
 
     R = "C01.R6"
     for gen in ("at4", "at5"):
@@ -441,7 +441,7 @@ def r6(ctx):
             mini.run(init.body, {})
             ids, seen, handed = [], set(), []
             while True:
-                state = tuple(sorted((k, v) for k, v in mini.selfattrs.items() if isinstance(v, (int, float, bool, str, type(None)))))
+                state = tuple(sorted((k, freeze(v)) for k, v in mini.selfattrs.items()))
                 if state in seen or len(seen) > 70000:
                     break
                 seen.add(state)
